@@ -20,6 +20,7 @@ inductive Re where
   | cat (a b : Re)
   | alt (a b : Re)
   | star (a : Re) | plus (a : Re) | quest (a : Re)
+  | starL (a : Re) | plusL (a : Re) | questL (a : Re)   -- non-greedy forms
   deriving Repr, BEq, Inhabited
 
 namespace Re
@@ -36,6 +37,14 @@ def starLoop {α} (mr : Option Rune → List Rune → (Option Rune → List Rune
   | fuel + 1, p, s, k =>
     (mr p s fun p' s' => if s'.length < s.length then starLoop mr fuel p' s' k else .none)
       <|> k p s
+
+/-- Non-greedy star loop: try the continuation first. -/
+def starLoopL {α} (mr : Option Rune → List Rune → (Option Rune → List Rune → Option α) → Option α) :
+    Nat → Option Rune → List Rune → (Option Rune → List Rune → Option α) → Option α
+  | 0, p, s, k => k p s
+  | fuel + 1, p, s, k =>
+    k p s <|>
+      (mr p s fun p' s' => if s'.length < s.length then starLoopL mr fuel p' s' k else .none)
 
 /-- `m r prev s k`: match `r` at a position whose previous rune is `prev` (`none` = start
     of text) and whose remaining input is `s`; on success call the continuation with the
@@ -63,6 +72,9 @@ def m {α} : Re → Option Rune → List Rune → (Option Rune → List Rune →
   | star a, p, s, k => starLoop (m a) (s.length + 1) p s k
   | plus a, p, s, k => m a p s fun p' s' => starLoop (m a) (s.length + 1) p' s' k
   | quest a, p, s, k => m a p s k <|> k p s
+  | starL a, p, s, k => starLoopL (m a) (s.length + 1) p s k
+  | plusL a, p, s, k => m a p s fun p' s' => starLoopL (m a) (s.length + 1) p' s' k
+  | questL a, p, s, k => k p s <|> m a p s k
 
 /-- Does `r` match starting exactly at this position (any end)? -/
 def matchesAt (r : Re) (p : Option Rune) (s : List Rune) : Bool :=
@@ -98,7 +110,7 @@ end Re
 
   `E` empty, `N` none, `A` anyNL, `D` any (dot), `^` bot, `$` eot, `b` bol, `e` eol,
   `C<lo>-<hi>,<lo>-<hi>…;` class with hex bounds, `.xy` cat, `|xy` alt, `*x` star,
-  `+x` plus, `?x` quest — prefix notation, no separators needed.
+  `+x` plus, `?x` quest, `sx` `px` `qx` their non-greedy forms — prefix notation, no separators needed.
 -/
 
 namespace Re
@@ -147,6 +159,9 @@ def parseAux : Nat → Bytes → Option (Re × Bytes)
     else if c == 42 then (parseAux fuel cs).map fun (a, r) => (star a, r)
     else if c == 43 then (parseAux fuel cs).map fun (a, r) => (plus a, r)
     else if c == 63 then (parseAux fuel cs).map fun (a, r) => (quest a, r)
+    else if c == 115 then (parseAux fuel cs).map fun (a, r) => (starL a, r)
+    else if c == 112 then (parseAux fuel cs).map fun (a, r) => (plusL a, r)
+    else if c == 113 then (parseAux fuel cs).map fun (a, r) => (questL a, r)
     else .none
 
 def parse (s : Bytes) : Option Re :=
